@@ -22,6 +22,10 @@ class Layout:
             n = rng.randint(1, 4)
             self.segs.append(dict(pfn=pfn, npages=n, voff=voff))
             pfn += n + rng.randint(1, 3)
+        if kind == "elf" and rng.random() < 0.35:
+            # the last segment ends at the top of the virtual address space (its last page is 0xfffffffffffff000)
+            last = self.segs[-1]
+            last["voff"] = (W - (last["pfn"] + last["npages"]) * ps) % W
         self.nuls = []
         self.present = {}
         for s in self.segs:
